@@ -40,6 +40,6 @@ CONSTANTS
   SetAddrs = {0, 1}
   LenAddrs = {0}
   TrailingCommas = {TRUE, FALSE}
-  LooseMembers = FALSE
+  LooseMembers = TRUE
 INVARIANTS EmitCase
 CHECK_DEADLOCK FALSE
